@@ -137,6 +137,11 @@ func decodeCollCase(tier string, idx int, tape *Tape) *collCase {
 			}
 			r.Outs = append(r.Outs, o)
 		}
+		if (r.Form == FVoid || r.Form == FVoidErr) && tape.Choose(StCfg, 3) == 0 {
+			// a constructor without a service result registered under a name: the
+			// identity (struct{}, name) - collModel.add
+			r.Name = keyPool[tape.Choose(StCfg, 2)]
+		}
 		if r.Form == FSingle || r.Form == FSingleErr || r.Form == FInstance {
 			switch tape.Choose(StCfg, 6) {
 			case 0:
@@ -203,7 +208,11 @@ func decodeCollCase(tier string, idx int, tape *Tape) *collCase {
 			}
 			c.Ops = append(c.Ops, cOp{Kind: cRemove, Id: Ident{T: t}})
 		case 9:
-			c.Ops = append(c.Ops, cOp{Kind: cRemoveKeyed, Id: Ident{T: pickT(), Key: keyPool[tape.Choose(StOps, 2)]}})
+			t := pickT()
+			if tape.Choose(StOps, 4) == 0 {
+				t = voidRef()
+			}
+			c.Ops = append(c.Ops, cOp{Kind: cRemoveKeyed, Id: Ident{T: t, Key: keyPool[tape.Choose(StOps, 2)]}})
 		case 10, 11:
 			c.Ops = append(c.Ops, cOp{Kind: cBuild})
 		case 12:
@@ -233,6 +242,17 @@ func newCollModel() *collModel {
 func (m *collModel) add(r *Reg) bool {
 	m.regs[r.ID] = r
 	ps := regIdents(r)
+	if (r.Form == FVoid || r.Form == FVoidErr) && r.Name != "" {
+		// named constructor without a service result: occupies (struct{}, name)
+		id := Ident{T: voidRef(), Key: r.Name}
+		if _, ok := m.services[id]; ok {
+			return false
+		}
+		p := Provision{Id: id, Reg: r.ID, OutIdx: -1}
+		m.services[id] = p
+		m.order = append(m.order, p)
+		return true
+	}
 	seen := map[Ident]bool{}
 	for _, p := range ps {
 		if p.Id.Group != "" {
@@ -352,7 +372,11 @@ func (m *collModel) descMultiset() map[descKey]int {
 	for _, p := range m.order {
 		r := m.regs[p.Reg]
 		if p.OutIdx < 0 {
-			out[descKey{T: "struct {}", Key: "void", Life: r.Life}]++
+			k := descKey{T: "struct {}", Key: "void", Life: r.Life}
+			if p.Id.Key != "" {
+				k.Key = p.Id.Key
+			}
+			out[k]++
 			continue
 		}
 		k := descKey{T: p.Id.T.RT().String(), Key: p.Id.Key, Group: p.Id.Group, Life: r.Life}
@@ -460,8 +484,8 @@ func runCollCase(c *collCase, tape *Tape, out *RunOut) []Violation {
 			if d.Key != nil {
 				k.Key = fmt.Sprint(d.Key)
 			}
-			if d.Type.String() == "struct {}" {
-				k.Key = "void"
+			if d.Type.String() == "struct {}" && k.Key != keyPool[0] && k.Key != keyPool[1] {
+				k.Key = "void" // generated key of an unnamed constructor without a service result
 			}
 			got[k]++
 		}
@@ -484,6 +508,12 @@ func runCollCase(c *collCase, tape *Tape, out *RunOut) []Violation {
 				if coll.ContainsKeyed(t.RT(), k) != wantK {
 					add("C17.queries", "containskeyed", "%s: ContainsKeyed(%s,%s)=%v, reference %v", when, t, k, !wantK, wantK)
 				}
+			}
+		}
+		for _, k := range keyPool[:2] {
+			_, wantK := m.services[Ident{T: voidRef(), Key: k}]
+			if coll.ContainsKeyed(voidRef().RT(), k) != wantK {
+				add("C17.queries", "containskeyed/void", "%s: ContainsKeyed(struct{},%s)=%v, reference %v", when, k, !wantK, wantK)
 			}
 		}
 	}
